@@ -2,6 +2,7 @@ package main
 
 import (
 	"bytes"
+	"errors"
 	"context"
 	"encoding/json"
 	"os"
@@ -45,7 +46,7 @@ func runProcOpts(timeout time.Duration, dir string, env []string, stdin []byte, 
 	c.Cancel = func() error { // kill the whole group (strace + child)
 		return syscall.Kill(-c.Process.Pid, syscall.SIGKILL)
 	}
-	c.WaitDelay = 2 * time.Second
+	c.WaitDelay = 60 * time.Second // only bounds the copy of already written output after the process has gone
 	var so, se bytes.Buffer
 	c.Stdout, c.Stderr = &so, &se
 	if deadStdout {
@@ -72,6 +73,14 @@ func runProcOpts(timeout time.Duration, dir string, env []string, stdin []byte, 
 				res.Exit = 128 + int(ws.Signal())
 			} else {
 				res.Exit = ws.ExitStatus()
+			}
+		} else if errors.Is(err, exec.ErrWaitDelay) && c.ProcessState != nil {
+			// the process ended; only draining its output took too long (overloaded machine): keep its status
+			if ws, ok := c.ProcessState.Sys().(syscall.WaitStatus); ok && ws.Signaled() {
+				res.Signal = ws.Signal().String()
+				res.Exit = 128 + int(ws.Signal())
+			} else {
+				res.Exit = c.ProcessState.ExitCode()
 			}
 		} else {
 			res.StartErr = err.Error()
